@@ -352,19 +352,22 @@ Section Inv.
 
   (* ---------------------------------------------------------------- a whole document *)
 
-  Theorem front_inverts_events root :
+  (* any DOCTYPE that selects the language (the form the XML generator writes; FrontSimple.doc_events) *)
+  Definition doc_events (rootname : bytes) (sysid pubid : option bytes) (root : node) : list event :=
+    [EvXmlDecl (Some (bs "1.0")) None; EvStartDoctype rootname sysid pubid] ++ ev_node l false root.
+
+  Theorem front_inverts_doc rootname sysid pubid root :
     input <> [] ->
-    search_table main (option_map str (option_map bs (l_pub_text l))) (option_map str (option_map bs (l_dtd l))) None = Some l ->
+    search_table main (option_map str pubid) (option_map str sysid) None = Some l ->
     root_canon l emb root = true ->
-    tree_from_xml main sub input (events_of l root) true = inl (mk_xtree (l_id l) 0 [root]).
+    tree_from_xml main sub input (doc_events rootname sysid pubid root) true = inl (mk_xtree (l_id l) 0 [root]).
   Proof.
     intros NI ST RC. unfold root_canon in RC. destruct root as [tg attrs ch| | | |]; try discriminate.
     apply andb_true_iff in RC. destruct RC as [RC KC]. apply andb_true_iff in RC. destruct RC as [RC ND].
     apply andb_true_iff in RC. destruct RC as [TC AC].
     unfold tree_from_xml. destruct input as [|i0 ir] eqn:EI; [now elim NI|]. rewrite <- EI. clear EI.
-    unfold events_of, prolog. cbn [ev_node].
-    set (pro := [EvXmlDecl (Some (bs "1.0")) None;
-                 EvStartDoctype (match l_root l with Some r => bs r | None => [] end) (option_map bs (l_dtd l)) (option_map bs (l_pub_text l))]).
+    unfold doc_events. cbn [ev_node].
+    set (pro := [EvXmlDecl (Some (bs "1.0")) None; EvStartDoctype rootname sysid pubid]).
     change (pro ++ EvStartElement (ev_name l tg) (map ev_attr attrs) 0 :: flat_map (ev_node l (tag_binary tg)) ch ++ [EvEndElement (ev_name l tg) 0])
       with (pro ++ [EvStartElement (ev_name l tg) (map ev_attr attrs) 0] ++ flat_map (ev_node l (tag_binary tg)) ch ++ [EvEndElement (ev_name l tg) 0]).
     rewrite !run_app.
@@ -396,6 +399,13 @@ Section Inv.
     unfold tree_of_ctx, root_of. cbn [c_lang c_charset c_spine set_spine close_spine]. rewrite L2, C2, C1.
     unfold reify, kids_of. cbn. now rewrite rev_append_rev, app_nil_r, rev_involutive.
   Qed.
+
+  Theorem front_inverts_events root :
+    input <> [] ->
+    search_table main (option_map str (option_map bs (l_pub_text l))) (option_map str (option_map bs (l_dtd l))) None = Some l ->
+    root_canon l emb root = true ->
+    tree_from_xml main sub input (events_of l root) true = inl (mk_xtree (l_id l) 0 [root]).
+  Proof. intros NI ST RC. exact (front_inverts_doc _ _ _ root NI ST RC). Qed.
 End Inv.
 
 (* ------------------------------------------------------------------ corollaries *)
@@ -563,3 +573,7 @@ Proof.
   apply (front_inverts_events main_table _ [60] (lang_by_id 2402) no_emb (no_emb_ok _ _ _ _) ex_activesync_root); [discriminate| |exact ex_activesync_canonical].
   apply (ex_doctype_selects 2402). cbn. auto.
 Qed.
+
+(* bridge to the simple case (Proofs/FrontSimple.v): without a namespace table the reported name is the tag's XML name *)
+Lemma ev_name_no_ns l tg : l_ns l = None -> ev_name l tg = tag_xml_name tg.
+Proof. intros H. destruct tg as [p t o nm|nm]; [|reflexivity]. unfold ev_name, xmlns_of_page. now rewrite H. Qed.
